@@ -107,6 +107,68 @@ class SyncOracle(Contract):
         log_event(v, 'sync', v.label == 'synced')
 
 
+class TryReadPromptOracle(Contract):
+    """try_read_prompt(multiplier): whatever arrived within the pacing timeouts (possibly nothing)"""
+    name = PX + '.try_read_prompt'
+    only_in = 'sync'
+    params = ['self', 'timeout_multiplier']
+
+    def outcomes(self, v):
+        return [Ret(T.Text), Raises('TIMEOUT')]
+
+    def effects(self, v):
+        if v.raised is None:
+            v.g['trp'] = list(v.g['trp']) + [v.result]
+
+
+class LevenshteinOracle(Contract):
+    name = PX + '.levenshtein_distance'
+    only_in = 'sync'
+    params = ['self', 'a', 'b']
+
+    def outcomes(self, v):
+        return [Ret(T.Int)]
+
+    def ensures(self, v):
+        return [('distance-nonneg', v.result >= 0)]
+
+
+class SyncOriginalPrompt(Contract):
+    """sync_original_prompt(): reports "synchronised" only if the shell answered the second <enter> with something -
+    a session that prints nothing is never taken for a prompt (C17: success only at a prompt)."""
+    name = PX + '.sync_original_prompt'
+    props = ('C17',)
+    standin = False
+    only_in = 'sync'
+    context = 'sync'
+
+    def shape(self, b):
+        me = b.obj('self', PX, sealed=False, string_type=b.cls('str'), before=b.any('before0'), after=b.any('after0'), match=b.any('match0'))
+        b.ghost('dlg', [])
+        b.ghost('trp', [])
+        b.ghost('clk', b.real('clk0'))
+        return dict(self=me, sync_multiplier=b.real('sync_multiplier'))
+
+    def requires(self, v):
+        return [('multiplier-positive', v.a.sync_multiplier > 0)]
+
+    def exits(self, v):
+        return ('TIMEOUT',)
+
+    def ensures(self, v):
+        if v.raised is not None:
+            return []
+        answers = v.g['trp']
+        sends = [e for e in v.g['dlg'] if e[0] == 'send']
+        out = [('C17:presses-enter-before-each-reading', len(sends) >= 3)]
+        if len(answers) >= 2:
+            a = answers[-2]          # the answer to the second <enter> (the last but one reading)
+            out.append(('C17:synchronised-only-if-the-shell-answered', Implies(v.result, length(a) >= 1)))
+        else:
+            out.append(('C17:synchronised-only-if-the-shell-answered', Not(v.result)))
+        return out
+
+
 class UniquePromptOracle(SyncOracle):
     name = PX + '.set_unique_prompt'
     params = ['self']
@@ -248,5 +310,6 @@ class Prompt(Contract):
 
 
 def register(reg):
-    for c in (ExpectOracle, SendlineOracle, CloseOracle, SpawnOracle, SyncOracle, UniquePromptOracle, Login, SetUniquePrompt, Prompt):
+    for c in (ExpectOracle, SendlineOracle, CloseOracle, SpawnOracle, SyncOracle, UniquePromptOracle, Login, SetUniquePrompt, Prompt,
+              TryReadPromptOracle, LevenshteinOracle, SyncOriginalPrompt):
         reg.add(c)
